@@ -486,6 +486,24 @@ def c17_atmos(rng, tier):
     rho2 = float(prob.get_val("rho", units="kg/m**3")[0])
     if abs(rho2 - rho) > 1e-3 * rho:
         out.append(_fail("density jumps across a 1 mm altitude step", rho2, rho, **case))
+    # the identities also hold on a live problem when only one of the two inputs changes between evaluations
+    for step in range(3):
+        which = ["Mach_number", "altitude", "Mach_number"][step]
+        if which == "Mach_number":
+            M = float(rng.uniform(0.1, 0.9)); prob.set_val("Mach_number", M)
+        else:
+            alt_m = float(rng.uniform(-900, 80000 * 0.3048 * 0.98)); prob.set_val("altitude", alt_m, units="m")
+        with quiet():
+            prob.run_model()
+        a = float(prob.get_val("speed_of_sound", units="m/s")[0]); v = float(prob.get_val("v", units="m/s")[0])
+        re_n = float(prob.get_val("re", units="1/ft")[0]); rho_n = float(prob.get_val("rho", units="slug/ft**3")[0])
+        v_n = float(prob.get_val("v", units="ft/s")[0]); mu_n = float(prob.get_val("mu", units="lbf*s/ft**2")[0])
+        if abs(v - M * a) > 1e-10 * max(v, M * a):
+            out.append(_fail("v != M a on a live problem after only %s changed" % which, v, M * a, altitude_m=alt_m, Mach=M, step=step))
+            break
+        if abs(re_n - rho_n * v_n / mu_n) > 1e-12 * re_n:
+            out.append(_fail("re != rho v / mu on a live problem after only %s changed" % which, re_n, rho_n * v_n / mu_n, altitude_m=alt_m, Mach=M))
+            break
     return out
 
 
